@@ -27,10 +27,13 @@ func verifDescribedScope(k int) (*ScopeSchema, any) {
 		if imin != nil && imax != nil {
 			verifAssume(*imin <= *imax)
 		}
-		fmin := verifOptFloat64("fmin")
+		fmin, fmax := verifOptFloat64("fmin"), verifOptFloat64("fmax")
+		if fmin != nil && fmax != nil {
+			verifAssume(*fmin <= *fmax)
+		}
 		s := NewScopeSchema(NewObjectSchema("N", map[string]*PropertySchema{
 			"i": p(NewIntSchema(imin, imax, UnitBytes), true),
-			"f": p(NewFloatSchema(fmin, nil, UnitDurationSeconds), false),
+			"f": p(NewFloatSchema(fmin, fmax, UnitDurationSeconds), false),
 		}))
 		return s, map[string]any{"i": nondetInt64("i"), "f": nondetFloat64("f")}
 	case 1: // strings, patterns, bools
